@@ -101,16 +101,21 @@ Qed.
 
 (* ------------------------------------------------------------------ strings *)
 Definition c06_string_dec (st : c06_state) (w : c06_where) : option (bool * bool) :=
-  match w with
-  | C6InObjStm | C6InTrailer => None
-  | C6InObject => if 4 <=? c6t_V st then c06_switch (c6t_cf_string st) else Some (false, false)
+  match c06_where_decrypts w with
+  | false => None
+  | true => if 4 <=? c6t_V st then c06_switch (c6t_cf_string st) else Some (false, false)
   end.
 
+(* every place but the /Contents of a signature dictionary that lacks the (optional) /Type /Sig: finding F10 *)
+Definition c06_where_ok (w : c06_where) : Prop :=
+  match w with C6InSigContents false => False | _ => True end.
+
 Lemma c06_string_dec_iso : forall c key st w m,
-  c06_wf_cfg c -> c06_state_for c key st -> c06_iso_string_method c w = Some m ->
+  c06_wf_cfg c -> c06_state_for c key st -> c06_where_ok w -> c06_iso_string_method c w = Some m ->
   c06_string_dec st w = c06_dec_expected m.
 Proof.
-  intros c key st w m Hwf Hst H. destruct w; cbn [c06_iso_string_method c06_string_dec] in *;
+  intros c key st w m Hwf Hst Hw H. destruct w as [| | |[|]]; try contradiction;
+    cbn [c06_iso_string_method c06_string_dec c06_where_decrypts negb] in *;
     try (inversion H; subst; reflexivity).
   unfold c06_default_method in H. rewrite (sf_V _ _ _ Hst).
   destruct (c6_V c <? 4) eqn:E4.
@@ -131,26 +136,26 @@ Qed.
 Lemma c06_iso_string_fits : forall c w m, c06_wf_cfg c -> c06_iso_string_method c w = Some m ->
   (m = C6AESV2 -> c6_V c = 4) /\ (m = C6AESV3 -> c6_V c = 5).
 Proof.
-  intros c w m [Hs _] H. destruct w; cbn in H; try (inversion H; subst; split; discriminate).
+  intros c w m [Hs _] H. destruct w as [| | |t]; cbn in H; try (inversion H; subst; split; discriminate).
   unfold c06_default_method in H. destruct (c6_V c <? 4) eqn:E4.
   - inversion H; subst; split; discriminate.
   - apply (c06_named_fits c (c6_strf c) m Hs); [apply N.leb_le; apply N.ltb_ge; exact E4|exact H].
 Qed.
 
 (* method_selection_string: for every supported scheme and crypt filter arrangement and every place a string can
-   live, the crypt filter method the reader model undoes is the method of the ISO rule *)
-Lemma method_selection_string_lemma : forall c key st w m,
-  c06_wf_cfg c -> c06_state_for c key st -> c06_iso_string_method c w = Some m ->
+   live (an indirect object, an object stream, the trailer, the /Contents of a signature dictionary that carries
+   /Type /Sig), the crypt filter method the reader model undoes is the method of the ISO rule *)
+Lemma method_selection_string_partial_lemma : forall c key st w m,
+  c06_wf_cfg c -> c06_state_for c key st -> c06_where_ok w -> c06_iso_string_method c w = Some m ->
   c06_reader_string_cfm st w = m.
 Proof.
-  intros c key st w m Hwf Hst H.
-  pose proof (c06_string_dec_iso c key st w m Hwf Hst H) as Hd.
+  intros c key st w m Hwf Hst Hw H.
+  pose proof (c06_string_dec_iso c key st w m Hwf Hst Hw H) as Hd.
   destruct (c06_iso_string_fits c w m Hwf H) as [F2 F3].
   unfold c06_reader_string_cfm. unfold c06_string_dec in Hd.
-  destruct w.
+  destruct (c06_where_decrypts w) eqn:Ew.
   - rewrite Hd. rewrite (sf_V _ _ _ Hst). apply c06_method_cfm_expected; assumption.
-  - cbn in H. inversion H. reflexivity.
-  - cbn in H. inversion H. reflexivity.
+  - destruct w as [| | |[|]]; try discriminate; try contradiction; cbn in H; inversion H; reflexivity.
 Qed.
 
 (* ------------------------------------------------------------------ streams *)
@@ -303,6 +308,17 @@ Definition c06_f1_sdict : c06_sdict :=
 Lemma c06_f1_state_for : c06_state_for c06_f1_cfg (repeat 7 16%nat) c06_f1_state.
 Proof. constructor; intros; reflexivity. Qed.
 
+(* The full statement is false on the faithful model (finding F10): the /Contents of a signature dictionary WITHOUT
+   the optional /Type /Sig is clear in the file and the reader model runs it through the /StrF cipher. *)
+Lemma method_selection_string_refuted_lemma :
+  exists c key st w m, c06_wf_cfg c /\ c06_state_for c key st /\ c06_iso_string_method c w = Some m /\
+                       c06_reader_string_cfm st w <> m.
+Proof.
+  exists c06_f1_cfg, (repeat 7 16%nat), c06_f1_state, (C6InSigContents false), C6None.
+  split; [split; reflexivity|]. split; [exact c06_f1_state_for|]. split; [reflexivity|].
+  vm_compute. discriminate.
+Qed.
+
 Lemma method_selection_stream_refuted_lemma :
   exists c key st s m, c06_wf_cfg c /\ c06_state_for c key st /\ c06_iso_stream_method c s = Some m /\
                        c06_reader_stream_cfm st s <> m.
@@ -319,7 +335,7 @@ Definition c06_key_fits (c : c06_cfg) (key : list N) : Prop :=
 
 Definition c06_leaf_wf (l : c06_leaf) : Prop :=
   length (c6l_iv l) = 16%nat /\ byte_list (c6l_iv l) /\ byte_list (c6l_data l) /\
-  match c6l_kind l with C6Stream s => c06_crypt_explicit s = true | C6String _ => True end.
+  match c6l_kind l with C6Stream s => c06_crypt_explicit s = true | C6String w => c06_where_ok w end.
 
 Lemma c06_decrypt_with_dec : forall st R m num gen iv data,
   c06_method_ok (c6t_V st) R (c6t_key st) m ->
@@ -369,12 +385,12 @@ Proof.
   unfold c06_leaf_method in Em.
   rewrite <- (sf_key _ _ _ Hst).
   destruct (c6l_kind l) as [w|s] eqn:Ek.
-  - pose proof (c06_string_dec_iso c key st w m Hwf Hst Em) as Hdec.
+  - pose proof (c06_string_dec_iso c key st w m Hwf Hst Hex Em) as Hdec.
     destruct (c06_iso_string_fits c w m Hwf Em) as [F2 F3].
     pose proof (c06_decrypt_with_dec st (c6_R c) m (c6l_num l) (c6l_gen l) (c6l_iv l) (c6l_data l)
                   (c06_method_ok_of c key st m Hst Hkf F2 F3) Hiv Hivb Hd) as Hmain.
     rewrite <- Hdec in Hmain. unfold c06_decrypt_string. unfold c06_string_dec in Hmain.
-    destruct w; exact Hmain.
+    destruct (c06_where_decrypts w); exact Hmain.
   - pose proof (c06_stream_dec_iso c key st s m Hwf Hst Hex Em) as Hdec.
     destruct (c06_iso_stream_fits c s m Hwf Em) as [F2 F3].
     pose proof (c06_decrypt_with_dec st (c6_R c) m (c6l_num l) (c6l_gen l) (c6l_iv l) (c6l_data l)
@@ -399,5 +415,5 @@ Qed.
 
 (* the reference encryptor never fails on a well-formed choice whose crypt filter names resolve: every leaf gets a method *)
 Print Assumptions decrypt_of_reference_encrypt_data_lemma.
-Print Assumptions method_selection_string_lemma.
+Print Assumptions method_selection_string_partial_lemma.
 Print Assumptions method_selection_stream_partial_lemma.
